@@ -804,7 +804,7 @@ struct Dim {
     variants: Vec<Variant>,
 }
 
-fn compared_header(name: &'static str, header: &'static str, want: &'static [&'static str; 6]) -> Dim {
+fn compared_header(name: &'static str, header: &'static str, want: &'static [&'static str; 6], more: &'static [(&'static str, &'static str, bool)]) -> Dim {
     // want = [exact, case-changed, near-miss, proper prefix, extended, other value]
     let l = |xs: Vec<&'static str>| -> &'static [&'static str] { Box::leak(xs.into_boxed_slice()) };
     Dim {
@@ -822,7 +822,10 @@ fn compared_header(name: &'static str, header: &'static str, want: &'static [&'s
             v("proper-prefix", l(vec![want[3]]), false),
             v("extended", l(vec![want[4]]), false),
             v("other-value", l(vec![want[5]]), false),
-        ],
+        ]
+        .into_iter()
+        .chain(more.iter().map(|(n, val, core)| v(n, l(vec![*val]), *core)))
+        .collect(),
     }
 }
 
@@ -852,10 +855,11 @@ fn dims() -> Vec<Dim> {
                 v("/version?query", &["/version?v=1"], false),
             ],
         },
-        compared_header("connection", "connection", &["upgrade", "UpGrAdE", "keep-alive, upgrade", "upgrad", "upgrade2", "close"]),
-        compared_header("upgrade", "upgrade", &["websocket", "WEBSOCKET", "websocket2", "websocke", "websocket/13", "h2c"]),
-        compared_header("version", "sec-websocket-version", &["13", "13", "12", "1", "130", "8"]),
-        compared_header("protocol", "sec-websocket-protocol", &["penguin-v7", "Penguin-V7", "penguin-v6", "penguin-v", "penguin-v70", "chat"]),
+        compared_header("connection", "connection", &["upgrade", "UpGrAdE", "keep-alive, upgrade", "upgrad", "upgrade2", "close"], &[]),
+        compared_header("upgrade", "upgrade", &["websocket", "WEBSOCKET", "websocket2", "websocke", "websocket/13", "h2c"], &[]),
+        // values that are the number 13 without being the string "13"
+        compared_header("version", "sec-websocket-version", &["13", "13", "12", "1", "130", "8"], &[("numeric-013", "013", true), ("numeric-plus13", "+13", false), ("numeric-0013", "0013", false), ("numeric-13.0", "13.0", false), ("list-13-8", "13, 8", false)]),
+        compared_header("protocol", "sec-websocket-protocol", &["penguin-v7", "Penguin-V7", "penguin-v6", "penguin-v", "penguin-v70", "chat"], &[("list-with-valid", "chat, penguin-v7", false)]),
         Dim {
             name: "key",
             header: "sec-websocket-key",
